@@ -15,7 +15,7 @@ RULE = ("Item trees over synthetic stack-item types (unwrap result: None / singl
         "iterator / empty) whose frames come from a pool of 64 real frames with distinct code objects, each with a "
         "table-driven elaborate_frame result (None / PRUNE / [] / replacement by item(s) / raw frame + item / insertion "
         "(item, next_inner) / bare next_inner), generated recursively by Hypothesis so that replacements and insertions "
-        "bring sub-trees whose frames have hooks of their own. Balanced space: 2-4 wrappers side by side, each unwrapping directly to 1-3 frames (all equally deep; any simple hook or single-frame replacement). Core space: right-nested trees with single-item insertions "
+        "bring sub-trees whose frames have hooks of their own. Balanced space: 2-4 wrappers side by side, each unwrapping directly to 1-3 frames (all equally deep; any simple hook or single-frame replacement; in a third of them an irreducible item may end any wrapper, not only the last - then, if no frame after it has a hook, the frames outward of it are compared as usual and of the rest only conservation is asserted: every frame and irreducible item still in Stack.frames or Stack.leaf). Core space: right-nested trees with single-item insertions "
         "(any hook anywhere). Order space: arbitrary nestings, None elements, multi-item and raw-frame insertions, with only "
         "None/next_inner/insert hooks. Plus the fixpoint-guard family: self-returning item, 2-cycle, wrapper chains of "
         "length 0..90 (must succeed) and >= 150 (must end with the 'unwrapped more than 100 times' error). Executed on "
@@ -24,7 +24,9 @@ RULE = ("Item trees over synthetic stack-item types (unwrap result: None / singl
 ASSUMPTIONS = [
     "where the documentation does not determine the outcome (an irreducible item followed by frames; prunes issued from one "
     "of several inserted items, from a directly inserted raw frame or from the last frame of a non-final sub-sequence) no "
-    "case is asserted: such cases are either not generated or detected by the model and skipped (counted as 'undefined')",
+    "case is asserted: such cases are either not generated or detected by the model and skipped (counted as 'undefined'); "
+    "for an irreducible item followed by frames none of which has a hook, conservation alone is asserted (the frames outward "
+    "of it as usual; every other frame and irreducible item still present in Stack.frames or Stack.leaf)",
     "the exact no-progress threshold is not asserted, only: chains <= 90 succeed, chains >= 150 and cycles end in an error",
 ]
 
@@ -92,8 +94,10 @@ def balanced_shapes():
     group = st.fixed_dictionaries({"u": st.sampled_from(["tuple", "list", "iter", "one"]),
                                    "frames": st.lists(elab.map(lambda e: {"e": e}), min_size=1, max_size=3),
                                    "leaf": st.booleans()})
+    # leaf_anywhere: an irreducible item may also end a group that is not the last one (frames follow it)
     return st.fixed_dictionaries({"u": st.sampled_from(["tuple", "list", "iter"]),
-                                  "groups": st.lists(group, min_size=2, max_size=4)})
+                                  "groups": st.lists(group, min_size=2, max_size=4),
+                                  "leaf_anywhere": st.sampled_from([False, False, True])})
 
 
 # ------------------------------------------------------------------------------------ numbering
@@ -185,7 +189,7 @@ def make_case(space, shape):
         last = len(shape["groups"]) - 1
         for gi, g in enumerate(shape["groups"]):
             ch = [n for n in (nb.frame(fr["e"]) for fr in g["frames"]) if n is not None]
-            if g.get("leaf") and gi == last:
+            if g.get("leaf") and (gi == last or shape.get("leaf_anywhere")):
                 ch.append({"name": nb.item_name(), "u": "none", "ch": []})
             u = g["u"] if (g["u"] != "one" or len(ch) == 1) else "tuple"
             groups.append({"name": nb.item_name(), "u": u if ch else "empty", "ch": ch})
@@ -228,6 +232,10 @@ def model(case):
     while q:
         if q[0][0] == "L":
             if any(x[0] == "F" for x in q):
+                # Where the frames that follow an irreducible item end up is not determined by the documentation, but
+                # "until only frames and leaves remain" is: if none of them has a hook, nothing may be lost.
+                if all(elab.get(str(x[1]), ["none"])[0] == "none" for x in q if x[0] == "F"):
+                    return ("PARTIAL", frames, [x[1] for x in q if x[0] == "F"], [x[1] for x in q if x[0] == "L"], info)
                 return UNDEFINED
             leaves = [x[1] for x in q]
             return frames, (leaves if len(leaves) > 1 else leaves[0]), info
@@ -385,6 +393,8 @@ def compare(case, ws, interps, out):
     if exp == UNDEFINED:
         out.hist["undefined_by_docs_skipped"] += 1
         return []
+    if exp[0] == "PARTIAL":
+        return conserve(case, exp, ws, interps, out)
     frames, leaf, info = exp
     viols = []
     for interp in interps:
@@ -410,6 +420,36 @@ def compare(case, ws, interps, out):
     classes = set(info) | tree_classes(case) | {"space." + case["space"]}
     out.note_case(case, nontrivial, classes=sorted(classes), n_eval=len(interps),
                   sample={"case": case, "expected_frames": frames, "expected_leaf": leaf})
+    return viols
+
+
+def conserve(case, exp, ws, interps, out):
+    """an irreducible item followed by hook-less frames: the frames outward of it are determined; of the rest only that
+    every frame and every irreducible item is still there (in Stack.frames or in Stack.leaf), irreducibles in order"""
+    _, prefix, rest_frames, rest_leaves, info = exp
+    viols = []
+    for interp in interps:
+        try:
+            res = ws[interp].request({"op": "hooks.c10", "root": case["root"], "elab": case["elab"]})
+        except WorkerDied as ex:
+            viols.append({"desc": "interpreter %s died (exit %r)" % (interp, ex.returncode), "interp": interp})
+            continue
+        out.per_interp[interp] += 1
+        if "raised" in res or res["error"] is not None:
+            viols.append({"desc": "extract failed on %s: %r" % (interp, res.get("raised") or res["error"]), "interp": interp})
+            continue
+        leaf = res["leaf"] if isinstance(res["leaf"], list) else ([] if res["leaf"] is None else [res["leaf"]])
+        in_leaf = [x["frame_as_leaf"] for x in leaf if isinstance(x, dict) and "frame_as_leaf" in x]
+        names = [x for x in leaf if not isinstance(x, dict)]
+        got_rest = res["frames"][len(prefix):] + in_leaf
+        if res["frames"][:len(prefix)] != prefix or sorted(map(str, got_rest)) != sorted(map(str, rest_frames)) \
+                or names != rest_leaves or any(isinstance(x, dict) and "other" in x for x in leaf):
+            viols.append({"desc": "frames / irreducible items lost or invented on %s: got frames=%r leaf=%r; the frames outward "
+                                  "of the first irreducible item are %r, and %r (frames) + %r (irreducible) must all remain"
+                                  % (interp, res["frames"], res["leaf"], prefix, rest_frames, rest_leaves), "interp": interp})
+    out.hist["irreducible_followed_by_frames.conservation_only"] += 1
+    out.note_case(case, False, classes=sorted(set(info) | {"space." + case["space"], "irreducible_item_followed_by_frames"}),
+                  n_eval=len(interps))
     return viols
 
 
